@@ -118,8 +118,8 @@ def h_ranges(ctx):
     lg = ctx.mod('sempler.lganm')
     rows, pat = I.weighted_dag(ctx)
     lo1, hi1, lo2, hi2 = e.real('mlo'), e.real('mhi'), e.real('vlo'), e.real('vhi')
-    e.assume(lo1 <= hi1)
-    e.assume(lo2 <= hi2)
+    e.assume(lo1 < hi1)
+    e.assume(lo2 < hi2)
     e.assume(lo2 >= 0)
     seed = e.int('seed')
     e.assume(seed >= 0)
@@ -232,7 +232,7 @@ def replay(rec):
             return (True, 'LGANM(W, (%s,%s), (%s,%s), random_state=%d) raised %s' % (lo1, hi1, lo2, hi2, seed, type(ex).__name__))
         p = len(W)
         bad = m.means.shape != (p,) or m.variances.shape != (p,) or any(not (lo1 <= v <= hi1) for v in m.means) or any(not (lo2 <= v <= hi2) for v in m.variances)
-        if not bad and p > 1 and hi1 > lo1:
-            bad = len(set(m.means.tolist())) < p
+        if not bad and p > 1:
+            bad = len(set(m.means.tolist())) < p or len(set(m.variances.tolist())) < p
         return (bad, 'means %s in [%s,%s], variances %s in [%s,%s]' % (m.means.tolist(), lo1, hi1, m.variances.tolist(), lo2, hi2))
     return (False, 'unknown call')
